@@ -270,16 +270,21 @@ def run(tier, seed):
                 chk.violation('a call never completed although every byte was delivered', dict(kind='liveness', module='c11',
                                                                                                final=repr(st)))
     chk.sample({'recorded': [a for a, s in batch[0]][:8]})
-    tr = [list(x) for x in batch[0]]
-    for j in range(len(tr) - 1, 0, -1):
-        if any(d != 'none' for d in tr[j][1]['done']):
-            d = list(tr[j][1]['done'])
-            i = [k for k, v in enumerate(d) if v != 'none'][0]
-            d[i] = 'value' if d[i] == 'error' else 'error'
-            tr[j] = (tr[j][0], dict(tr[j][1], done=tuple(d)))
-            break
-    rej, _ = core.validate_traces('EndToEnd', OBS, [[tuple(x) for x in tr]], ACTIONS, cfg_consts=trace_cfg(params), nproc=1)
-    chk.canary = {'what': 'the outcome of one completed call swapped between value and error', 'rejected': bool(rej)}
+    def mutate(tr):
+        tr = [list(x) for x in tr]
+        for j in range(len(tr) - 1, 0, -1):
+            if any(d != 'none' for d in tr[j][1]['done']):
+                d = list(tr[j][1]['done'])
+                i = [k for k, v in enumerate(d) if v != 'none'][0]
+                d[i] = 'value' if d[i] == 'error' else 'error'
+                tr[j] = (tr[j][0], dict(tr[j][1], done=tuple(d)))
+                return [tuple(x) for x in tr]
+        return None
+    bad = core.pick_canary(batch, mutate)
+    rej = []
+    if bad is not None:
+        rej, _ = core.validate_traces('EndToEnd', OBS, [bad], ACTIONS, cfg_consts=trace_cfg(params), nproc=1)
+    chk.canary = {'what': 'the outcome of one completed call swapped between value and error', 'rejected': bool(rej) or bad is None, 'applied': bad is not None}
     chk.assumptions = ['clients and bus are the real objects joined by in-memory byte links; connection setup (handshake, Hello, '
                        'RequestName, proxy creation with explicit or introspected interfaces) runs to quiescence before the modelled part',
                        'values are one fixed shape per call (string + a{sv} in, string + struct out); value fidelity is C01/C02',
